@@ -118,6 +118,7 @@ func metricName(buf []byte) []byte {
 
 func (route *SendAllMatch) Dispatch(buf []byte) {
 	conf := route.config.Load().(Config)
+	verifAfterLoad(route.key)
 	name := metricName(buf)
 
 	for _, dest := range conf.Dests() {
@@ -131,6 +132,7 @@ func (route *SendAllMatch) Dispatch(buf []byte) {
 
 func (route *SendFirstMatch) Dispatch(buf []byte) {
 	conf := route.config.Load().(Config)
+	verifAfterLoad(route.key)
 	name := metricName(buf)
 
 	for _, dest := range conf.Dests() {
@@ -145,6 +147,7 @@ func (route *SendFirstMatch) Dispatch(buf []byte) {
 
 func (route *ConsistentHashing) Dispatch(buf []byte) {
 	conf := route.config.Load().(consistentHashingConfig)
+	verifAfterLoad(route.key)
 	if pos := bytes.IndexByte(buf, ' '); pos > 0 {
 		name := buf[0:pos]
 		dest := conf.Dests()[conf.Hasher.GetDestinationIndex(name)]
